@@ -6,10 +6,14 @@ a type-directed random generator, printed with minimal parentheses and re-read w
   (1) the Lean model `PdeVerif.Ex.exprFunction` / `diff` on the re-read AST (exact `Rat` for the
       rational fragment, `Float` with the libm table otherwise)       -> correspondence,
   (2) Python's own `eval` of the text with `math` functions            -> monitor reference,
-  (3) the py-pde pipeline: ScalarExpression / TensorExpression numpy function, numba-compiled
-      function, single_arg variants, from_expression of the three field classes,
-      differentiate and derivatives.
-(1) vs (2) separates harness/model mistakes from pipeline defects."""
+  (3) the py-pde pipeline: ScalarExpression / TensorExpression numpy function, numba function
+      (really compiled for the JIT subset: routes `numba*`; executed in numba's source semantics,
+      NUMBA_DISABLE_JIT=1, for every other program: routes `numba-src*`), single_arg variants,
+      from_expression of the three field classes, differentiate and derivatives.
+(1) vs (2) separates harness/model mistakes from pipeline defects.  Derivatives have the numerical
+derivative (mpmath, 30 digits) of Python's evaluation of the text as reference (2).
+A small stream of functions OUTSIDE the compared grammar (sign, Max, Min, erfc, gamma, %) records the
+outcome of every route: exceptions are counted as refusals, returned values are judged."""
 import math
 import os
 
@@ -22,10 +26,13 @@ REQUIRED_THEOREMS = [
     "eval_compositional", "eval_subst", "alias_replacement_sound", "prepare_sound",
     "signature_order_irrelevant_for_named_env", "consts_as_partial_application", "exprFunction_spec",
     "diff_sound", "heaviside_semantics", "tensor_eval_componentwise", "eval_pointwise", "gradient_sound",
+    "checkSignature_sound", "exprFunction_closed", "withUser_call1", "withUser_call2", "withUser_base", "eval_idx_bound",
+    "defined_div", "defined_powI", "primTab_names", "primTab_alg",
 ]
 RULE = ("programs = expression texts drawn by a type-directed (interval-typed) random generator over the whole "
         "grammar (numbers incl. decimal/scientific, variables, constants, indexed symbols, + - * / **, unary minus, "
-        "elementary functions, hypot/atan2/general power, user functions, heaviside/Heaviside, top-level comparisons, "
+        "elementary functions, floor/ceiling, the special functions erf/hypot/heaviside of py-pde's SPECIAL_FUNCTIONS, "
+        "atan2/general power, user functions, heaviside/Heaviside, top-level comparisons, "
         "coordinate aliases, signature synonyms, arrays of rank 1 and 2), depth <= 6, printed with minimal parentheses "
         "and re-read by Python's ast module; a program is distinct by (text, signature, constants, user functions, "
         "points) and non-trivial if its reference value is not the same at all sample points and at least one point "
@@ -35,8 +42,14 @@ ASSUMPTIONS = [
     "Python's ast module defines how text maps to an AST (sympy's parse_expr is built on the same tokenizer/grammar)",
     "points where the formula is ill-conditioned (error amplification > 1e6, or a heaviside/comparison/floor argument "
     "that cannot be told from its jump under a 1e-12 relative perturbation) are counted and skipped",
-    "Max/Min/sign/erf are outside the compared grammar: py-pde's numpy printer emits `max(a, b)` resolved to numpy.max "
-    "(an error, not a wrong value), sign becomes a Piecewise that fails on arrays, erf cannot be compiled by numba",
+    "Max/Min/sign/erfc/gamma/% are outside the compared grammar (py-pde documents arithmetic, sympy functions it can print, "
+    "heaviside, hypot, erf): a separate stream records the outcome of every route for them - exceptions (numpy.max called "
+    "with a float axis, a Piecewise on arrays, math.gamma on arrays) are counted as refusals, every RETURNED value is judged; "
+    "complex numbers (`I`) are not covered",
+    "erf is py-pde's scipy.special.erf: a numba-COMPILED erf program is refused with TypingError (the optional package "
+    "numba-scipy is not installed); the refusal is counted, the numpy / numba-source-semantics / field routes of the same "
+    "programs are judged.  Reference values: libm erf (Python), cross-checked against mpmath on every run, and a series / "
+    "continued-fraction implementation in the Lean driver",
     "numba_backend._make_expression_array (deprecated get_compiled_array) prints components with str(): compile-time "
     "refusals of names that differ between sympy and numpy are counted, not judged; returned values are judged",
 ]
@@ -45,6 +58,8 @@ TRUSTED_EXTRA = [
     "harness/common/exprs.py: generator, printer, ast-based reader, conditioning analysis",
 ]
 TOL = 1e-9
+# derivatives against the numerical derivative of the written formula (mpmath, 30 digits)
+DTOL_REL, DTOL_ABS = 1e-8, 1e-10
 
 GENERAL_VARS = ["x", "y", "z", "u", "t", "E", "S", "beta", "x_2"]
 POSITIVE_VARS = ["p", "r", "s", "rho", "N"]
@@ -184,6 +199,20 @@ def gen_scalar_program(rng, i, jit):
             e = X.bi("mul", X.un("call1", v, f="exp"), X.un("call1", X.un("call1", X.un("neg", a), f="exp"), f="abs"))
         if rng.random() < 0.5:
             e = X.bi(rng.choice(["add", "mul"]), gen.gen(2, "any"), e)
+    if family is None and not top_cmp and rng.random() < 0.03 and variables:
+        # regression family: `k*log(m)` is folded into `log(m**k)` by sympy's simplification, and the derivative of
+        # `k*m**v` is `m**v*log(m**k)`: an integer far beyond int64 in the generated code (proposed fix
+        # notes/proposed_fixes/C11-huge-integer-literal.diff)
+        family = "log-of-integer-power"
+        v = X.var(rng.choice(sorted(variables)))
+        k, m = rng.choice([("30", "9"), ("48", "7"), ("64", "3"), ("25", "12")])
+        if rng.random() < 0.5:
+            e = X.bi("mul", X.bi("mul", X.num(k), X.un("call1", X.num(m), f="log")), v)
+        else:
+            e = X.bi("mul", X.num(k), X.bi("call2", X.num(m), X.bi("div", v, X.num("4")), f="pow"))
+            diffable = True
+        if rng.random() < 0.5:
+            e = X.bi("add", gen.gen(2, "any") if not diffable else X.bi("mul", v, v), e)
     # signature: order, synonyms, repl
     sig_names = list(names) + ([indexed_var] if indexed_var else [])
     rng.shuffle(sig_names)
@@ -505,6 +534,34 @@ def gen_malformed_program(rng, i):
     return finish_program(rng, prog, e, {"x", "y", "x1"})
 
 
+OUTSIDE = {
+    # function: (templates, python reference namespace entry)
+    "sign": ["sign({a})*{b}", "sign({a} - 0.5)"],
+    "Max": ["Max({a}, {b})", "Max({a}, 1) + {b}"],
+    "Min": ["Min({a}, {b})", "2*Min({a}, 0.5)"],
+    "erfc": ["erfc({a})"],
+    "gamma": ["gamma(p + 1)*{a}"],
+    "Mod": ["{a} % 2", "({a} + {b}) % 1.5"],
+}
+
+
+def outside_namespace():
+    return {"sign": lambda v: (v > 0) - (v < 0), "Max": max, "Min": min, "erfc": math.erfc, "gamma": math.gamma}
+
+
+def gen_outside_program(rng, i, jit):
+    """functions OUTSIDE the compared grammar (sympy accepts them; py-pde's printers do not support all of them): the
+    outcome of every route is recorded - an exception is counted as a refusal, a returned value must be right"""
+    fn = rng.choice(sorted(OUTSIDE))
+    tmpl = rng.choice(OUTSIDE[fn])
+    a, b = rng.sample(["x", "y"], 2)
+    text = tmpl.format(a=a, b=b)
+    pts = [[dy(rng, -3, 3, 4) + 0.125, dy(rng, -3, 3, 4) + 0.0625, dy(rng, 0.25, 3, 4)] for _ in range(6)]
+    return {"id": i, "kind": "outside", "function": fn, "rank": 0, "sig": [["x"], ["y"], ["p"]], "sig_none": False, "consts": {},
+            "array_consts": {}, "repl": {}, "ufuncs": {}, "points": pts, "n_scalar": 3, "indexed": False, "jit": jit, "diff": [],
+            "top_cmp": False, "texts": text, "ast": None, "roundtrip_ok": True}
+
+
 # ==========================================================================================
 # the real code (runs in worker processes)
 def _ufunc_objects(prog, ns_kind):
@@ -527,20 +584,30 @@ def _ufunc_objects(prog, ns_kind):
     return out
 
 
+COMPLEX_TYPED = [0]
+
+
 def _fl(v):
-    """canonical float (or None for non-finite / complex)"""
+    """canonical float (or None for non-finite / genuinely complex values).  A complex-TYPED value with vanishing
+    imaginary part (sympy's simplification without real assumptions can produce `exp(erf(re(x) - I*im(x))/2 + ...)`)
+    has the value of its real part; such results are counted (`complex_typed_results`)."""
     import numpy as np
 
+    v = np.asarray(v)
+    if v.shape != ():
+        return None
+    v = v[()]
     if isinstance(v, (complex, np.complexfloating)):
         if v.imag != 0:
             return None
+        COMPLEX_TYPED[0] += 1
         v = v.real
     v = float(v)
     return v if math.isfinite(v) else None
 
 
-class _Timeout(Exception):
-    pass
+class _Timeout(BaseException):
+    """not an `Exception`: an `except Exception` inside sympy (or in `guarded`) must not swallow the time limit"""
 
 
 def _alarm(_sig, _frm):
@@ -587,19 +654,35 @@ def worker(prog):
     import warnings
 
     warnings.filterwarnings("ignore")
-    if prog["jit"]:
-        _warm_up_numba()
+    if prog["jit"] and numba_tag() == "numba":
+        try:
+            _warm_up_numba()
+        except Exception:         # a tree whose warm-up expression does not compile: the programs themselves are judged
+            _WARM.append(False)
     obs, errs = [], []
+    COMPLEX_TYPED[0] = 0
     try:
         _run_program(prog, obs, errs)
     except _Timeout:
         errs.append(("timeout", "program exceeded the time limit"))
         obs[:] = []
-    return {"id": prog["id"], "obs": obs, "errs": errs}
+    n_cplx, COMPLEX_TYPED[0] = COMPLEX_TYPED[0], 0
+    return {"id": prog["id"], "obs": obs, "errs": errs, "exec_mode": "S" if numba_tag() == "numba-src" else "J",
+            "complex_typed": n_cplx}
 
 
 def _exc(ex):
-    return f"{type(ex).__name__}: {str(ex)[:160]}"
+    full = str(ex)
+    # numba reports the decisive line deep inside a long message: keep it for the structural key
+    extra = " [Int value is too large]" if "Int value is too large" in full[160:] else ""
+    return f"{type(ex).__name__}: {full[:160]}{extra}"
+
+
+def numba_tag():
+    """name of the numba routes in this process: `numba` when the functions are really compiled, `numba-src` when
+    numba's source semantics is executed (NUMBA_DISABLE_JIT=1: the same generated code - numba printer, list
+    arrays, compiled special/user functions - run by the Python interpreter)"""
+    return "numba-src" if os.environ.get("NUMBA_DISABLE_JIT", "0") == "1" else "numba"
 
 
 def _run_program(prog, obs, errs):
@@ -607,6 +690,9 @@ def _run_program(prog, obs, errs):
     from pde.tools.expressions import ScalarExpression, TensorExpression
 
     kind = prog["kind"]
+    NB = numba_tag()
+    src_mode = NB == "numba-src"
+    use_numba = (prog["jit"] or src_mode) and not prog.get("no_numba")
     ufs = _ufunc_objects(prog, "numpy") or None
     npts = len(prog["points"])
     n_sc = prog["n_scalar"]
@@ -657,7 +743,7 @@ def _run_program(prog, obs, errs):
             errs.append((route, _exc(ex)))
 
     # ---------------------------------------------------------------------------------------
-    if kind in ("scalar", "step0", "malformed"):
+    if kind in ("scalar", "step0", "malformed", "outside"):
         text = prog["texts"]
         sig = None if prog["sig_none"] else [l if len(l) > 1 else l[0] for l in prog["sig"]]
         try:
@@ -718,21 +804,21 @@ def _run_program(prog, obs, errs):
         if all_scalar:
             guarded("numpy-single", r_single)
 
-        if prog["jit"]:
+        if use_numba:
             def r_numba():
                 f = e.get_function("numba")
                 for i in range(n_sc):
-                    record("numba", i, f(*args_of(prog["points"][i])))
+                    record(NB, i, f(*args_of(prog["points"][i])))
                 if npts > n_sc:
-                    record_array("numba-array", f(*array_args()))
-            guarded("numba", r_numba)
+                    record_array(NB + "-array", f(*array_args()))
+            guarded(NB, r_numba)
 
             def r_numba_single():
                 f = e.get_function("numba", single_arg=True)
                 for i in range(n_sc):
-                    record("numba-single", i, f(np.array(prog["points"][i], dtype=float)))
-            if all_scalar and prog["id"] % 3 == 0:
-                guarded("numba-single", r_numba_single)
+                    record(NB + "-single", i, f(np.array(prog["points"][i], dtype=float)))
+            if all_scalar and (src_mode or prog["id"] % 3 == 0):
+                guarded(NB + "-single", r_numba_single)
 
         for v in prog["diff"]:
             def r_diff(v=v):
@@ -742,10 +828,10 @@ def _run_program(prog, obs, errs):
                     record(f"differentiate:{v}", i, de(*args_of(prog["points"][i])))
                 if npts > n_sc:
                     record_array(f"differentiate:{v}-array", de(*array_args()))
-                if prog["jit"] and prog["id"] % 4 == 0:
+                if use_numba and (src_mode or prog["id"] % 4 == 0):
                     f = de.get_function("numba")
                     for i in range(n_sc):
-                        record(f"differentiate-numba:{v}", i, f(*args_of(prog["points"][i])))
+                        record(f"differentiate-{NB}:{v}", i, f(*args_of(prog["points"][i])))
             guarded(f"differentiate:{v}", r_diff)
         if prog["diff"]:
             def r_derivs():
@@ -779,24 +865,24 @@ def _run_program(prog, obs, errs):
                 record("tensor-numpy", i, e(*prog["points"][i]), shape)
             record_array("tensor-numpy-array", e(*array_args()), shape)
         guarded("tensor-numpy", r_numpy)
-        if prog["jit"]:
+        if use_numba:
             def r_numba():
                 f = e.get_function("numba")
                 for i in range(n_sc):
-                    record("tensor-numba", i, np.array(f(*prog["points"][i])), shape)
-            guarded("tensor-numba", r_numba)
+                    record("tensor-" + NB, i, np.array(f(*prog["points"][i])), shape)
+            guarded("tensor-" + NB, r_numba)
             if prog.get("plain") and sig:
                 from pde.backends.numba import numba_backend
 
                 def r_arr():
                     f = numba_backend._make_expression_array(e, single_arg=False)
                     for i in range(n_sc):
-                        record("tensor-numba-array-fn", i, f(*prog["points"][i]), shape)
-                    record_array("tensor-numba-array-fn-array", f(*array_args()), shape)
+                        record(f"tensor-{NB}-array-fn", i, f(*prog["points"][i]), shape)
+                    record_array(f"tensor-{NB}-array-fn-array", f(*array_args()), shape)
                     f1 = numba_backend._make_expression_array(e, single_arg=True)
                     for i in range(n_sc):
-                        record("tensor-numba-array-fn-single", i, f1(np.array(prog["points"][i], dtype=float)), shape)
-                guarded("tensor-numba-array-fn", r_arr)
+                        record(f"tensor-{NB}-array-fn-single", i, f1(np.array(prog["points"][i], dtype=float)), shape)
+                guarded(f"tensor-{NB}-array-fn", r_arr)
         for v in prog["diff"]:
             def r_diff(v=v):
                 with _sympy_time_limit():
@@ -945,32 +1031,69 @@ def pick(nested, comp):
 
 # ==========================================================================================
 def close(a, b, tol=TOL):
+    """NaN-safe: a non-finite value is never close to anything"""
     a, b = float(a), float(b)
+    if not (math.isfinite(a) and math.isfinite(b)):
+        return False
     return abs(a - b) <= tol * max(abs(a), abs(b)) or abs(a - b) < 1e-300
 
 
+def mp_namespace(ufuncs=None):
+    """the functions of the grammar at 30 significant digits (mpmath): an evaluator that shares nothing with sympy's
+    printers, numpy or libm"""
+    import mpmath as mp
+
+    def heav(x, h=0.5):
+        return mp.mpf(0) if x < 0 else (mp.mpf(1) if x > 0 else mp.mpf(h))
+
+    ns = {"sin": mp.sin, "cos": mp.cos, "tan": mp.tan, "exp": mp.exp, "log": mp.log, "sqrt": mp.sqrt, "tanh": mp.tanh,
+          "sinh": mp.sinh, "cosh": mp.cosh, "atan": mp.atan, "asin": mp.asin, "acos": mp.acos, "asinh": mp.asinh,
+          "atanh": mp.atanh, "abs": abs, "erf": mp.erf, "floor": mp.floor, "ceiling": mp.ceil,
+          "hypot": lambda a, b: mp.sqrt(a * a + b * b), "atan2": mp.atan2, "pi": mp.pi, "E": mp.e,
+          "heaviside": heav, "Heaviside": heav, "__builtins__": {}}
+    for name, (ps, body) in (ufuncs or {}).items():
+        ns[name] = eval(f"lambda {', '.join(ps)}: {X.to_text(body)}", dict(ns))
+    return ns
+
+
 def fd_derivative(prog, text, ipt, var):
-    """central differences on Python's eval of the text (converged estimate or None)"""
+    """derivative of the WRITTEN formula with respect to `var` at point `ipt`: numerical differentiation of Python's
+    evaluation of the text with mpmath functions at 30 digits (accurate to far below the comparison tolerance; the
+    name is historical).  None when the formula is not real-valued and smooth around the point."""
+    import mpmath as mp
+
     uf = ufuncs_of(prog)
     env = env_of(prog, ipt)
     names = [n for entry in prog["sig"] if entry[0] == var for n in entry]
     names += [a for a, n in prog["repl"].items() if n == var]
-    x0 = env[var]
-    est = []
-    for h in (1e-4 * max(1.0, abs(x0)), 5e-5 * max(1.0, abs(x0))):
-        vals = []
-        for s in (1, -1, 2, -2):
-            e2 = dict(env)
-            for n in names:
-                e2[n] = x0 + s * h
-            v = X.python_eval(text, e2, uf)
-            if v is None:
-                return None
-            vals.append(v)
-        est.append((8 * (vals[0] - vals[1]) - (vals[2] - vals[3])) / (12 * h))
-    if abs(est[0] - est[1]) > 1e-6 * max(abs(est[0]), abs(est[1]), 1e-6):
+    if var not in env or isinstance(env[var], (list, tuple)):
         return None
-    return est[1]
+    code = compile(text, "<expr>", "eval")
+    with mp.workdps(30):
+        ns = mp_namespace(uf)
+        for k, v in env.items():
+            ns[k] = [mp.mpf(x) for x in v] if isinstance(v, (list, tuple)) else mp.mpf(v)
+
+        def f(v):
+            e2 = dict(ns)
+            for n in names:
+                e2[n] = v
+            r = eval(code, e2)
+            if isinstance(r, mp.mpc):
+                raise ValueError("complex value")
+            return r
+        try:
+            d = mp.diff(f, mp.mpf(env[var]))
+            d2 = mp.diff(f, mp.mpf(env[var]), h=mp.mpf(10) ** -8)
+        except (ValueError, ZeroDivisionError, OverflowError, TypeError, mp.libmp.NoConvergence):
+            return None
+        if isinstance(d, mp.mpc) or isinstance(d2, mp.mpc):
+            return None
+        d, d2 = float(d), float(d2)
+    # two very different step sizes must agree: otherwise the formula is not smooth at this point
+    if not (math.isfinite(d) and abs(d - d2) <= 1e-6 * max(abs(d), abs(d2), 1e-6)):
+        return None
+    return d
 
 
 def run(ctx):
@@ -981,11 +1104,11 @@ def run(ctx):
     n_prog = ctx.budget(900, 12000)
     n_jit = ctx.budget(240, 2400)
     progs = []
-    kinds = (["scalar"] * 52 + ["field"] * 22 + ["tensor"] * 10 + ["step0"] * 10 + ["malformed"] * 6)
+    kinds = (["scalar"] * 51 + ["field"] * 21 + ["tensor"] * 10 + ["step0"] * 10 + ["malformed"] * 6 + ["outside"] * 2)
     jit_left = n_jit
     for i in range(n_prog):
         kind = kinds[i % len(kinds)] if i >= len(kinds) else kinds[i]
-        jit = jit_left > 0 and kind in ("scalar", "tensor", "step0") and rng.random() < 1.6 * n_jit / n_prog
+        jit = jit_left > 0 and kind in ("scalar", "tensor", "step0", "outside") and rng.random() < 1.6 * n_jit / n_prog
         if jit:
             jit_left -= 1
         if kind == "scalar":
@@ -996,6 +1119,8 @@ def run(ctx):
             p = gen_tensor_program(rng, i, jit)
         elif kind == "step0":
             p = gen_step_program(rng, i, jit)
+        elif kind == "outside":
+            p = gen_outside_program(rng, i, jit)
         else:
             p = gen_malformed_program(rng, i)
         progs.append(p)
@@ -1004,19 +1129,44 @@ def run(ctx):
         raise BrokenCheck(f"printer/reader round trip failed for {len(bad_rt)} programs, e.g. {bad_rt[0]['texts']!r}")
 
     # --- the real code, in parallel -----------------------------------------------------------
+    # two pools side by side (16 processes in total): the JIT subset with numba really compiling, every other program
+    # with NUMBA_DISABLE_JIT=1, where the numba routes execute numba's source semantics (routes `numba-src*`)
+    worst = X.selfcheck_erf()
+    if not (worst <= 1e-13):
+        raise BrokenCheck(f"libm erf (reference of the erf leg) deviates from mpmath by {worst:.3g} relative")
     order = list(range(len(progs)))
     ctx.sub_rng("shuffle").shuffle(order)
-    results = run_many("harness.c11", "worker", [progs[i] for i in order], procs=16, timeout=3000)
+    jprogs = [progs[i] for i in order if progs[i]["jit"]]
+    sprogs = [progs[i] for i in order if not progs[i]["jit"]]
+    import threading
+
+    box = {}
+
+    def pool(name, args, env, procs):
+        try:
+            box[name] = run_many("harness.c11", "worker", args, env=env, procs=procs, timeout=3000)
+        except Exception as ex:          # re-raised in the main thread
+            box[name] = ex
+
+    th = threading.Thread(target=pool, args=("J", jprogs, {"NUMBA_DISABLE_JIT": "0"}, 8))
+    th.start()
+    pool("S", sprogs, {"NUMBA_DISABLE_JIT": "1"}, 8)
+    th.join()
     res_by_id = {}
-    for r in results:
-        if isinstance(r, str):
-            raise BrokenCheck("worker failed: " + r)
-        res_by_id[r["id"]] = r
+    for name in ("S", "J"):
+        if isinstance(box[name], Exception):
+            raise box[name]
+        for r in box[name]:
+            if isinstance(r, str):
+                raise BrokenCheck("worker failed: " + r)
+            res_by_id[r["id"]] = r
 
     # --- the model ----------------------------------------------------------------------------
     batch = LeanBatch(ctx.workdir)
     slots = {}
     for p in progs:
+        if p["kind"] == "outside":
+            continue                    # no model for functions outside the grammar: monitor only
         rat = is_rational(p)
         slots[p["id"]] = (batch.add("c11.eval", lean_request(p, "Q")) if rat else None,
                           batch.add("c11.eval", lean_request(p, "F")))
@@ -1028,6 +1178,9 @@ def run(ctx):
     n_compared = 0
     for p in progs:
         res = res_by_id[p["id"]]
+        if p["kind"] == "outside":
+            judge_outside(ctx, p, res)
+            continue
         iq, jf = slots[p["id"]]
         aF = answers[jf]
         aQ = answers[iq] if iq is not None else None
@@ -1037,7 +1190,9 @@ def run(ctx):
             continue
         judge_program(ctx, p, res, ("Q", aQ[1]) if aQ else ("F", aF[1]), aF[1], stats)
     ctx.extra["programs"] = len(progs)
-    ctx.extra["disagreements_checked"] = ctx.impl_traces
+    # translated functions whose values were compared: distinct (program, route) pairs with at least one compared point
+    # (`traces_validated_against_impl` counts all observations, `monitor_evaluations_on_real_code` the compared ones)
+    ctx.extra["disagreements_checked"] = len(ctx.extra.pop("_pairs", ()))
     ctx.extra["points"] = dict(stats)
     tot = max(1, stats["points"])
     ctx.extra["fraction_well_conditioned_points"] = round(stats["ok"] / tot, 4)
@@ -1049,14 +1204,51 @@ def run(ctx):
         shrink_failures(ctx)
 
 
+def judge_outside(ctx, p, res):
+    """functions outside the compared grammar: exceptions are refusals (counted per function, route and error class),
+    returned values are judged against Python's evaluation of the text"""
+    fn = p["function"]
+    case = {k: p[k] for k in ("kind", "function", "texts", "sig", "consts", "repl", "ufuncs", "points", "rank", "n_scalar",
+                              "sig_none", "indexed", "array_consts", "diff", "jit")}
+    case["exec_mode"] = res.get("exec_mode")
+    ctx.hist("kind", "outside" + ("/jit" if p["jit"] else ""))
+    ctx.count(case, nontrivial=True, leg="outside")
+    refused = set()
+    for route, msg in res["errs"]:
+        refused.add(route.split(":")[0])
+        ctx.hist("outside_grammar", f"{fn}:{route.split(':')[0]}:{msg.split(':')[0]}")
+    ns = outside_namespace()
+    good = set()
+    for route, ipt, comp, val in res["obs"]:
+        if ipt is None:
+            continue
+        env = dict(ns)
+        env.update(env_of(p, ipt))
+        pv = X.python_eval(p["texts"], env)
+        if pv is None:
+            continue
+        ctx.monitor_evals += 1
+        if val is None or not close(val, pv):
+            ctx.monitor_fail(route, dict(case, route=route, point=ipt, comp=comp), val, pv,
+                             f"{route}: a function outside the compared grammar returns a wrong value ({fn})",
+                             key={"kind": "outside", "route": route, "function": fn})
+        else:
+            good.add(route)
+    for route in good:
+        ctx.hist("outside_grammar", f"{fn}:{route}:value-ok")
+
+
 def judge_program(ctx, p, res, ans_main, ansF, stats):
     kind = p["kind"]
     mode, ans = ans_main
     nt = ctx.extra.setdefault("_nt", {"n": 0, "nonconst": 0, "good": 0})
     errs = dict(res["errs"])
     obs = res["obs"]
-    case = {k: p[k] for k in ("kind", "texts", "sig", "consts", "repl", "ufuncs", "points", "rank")}
-    for k in ("array_consts", "grid", "what", "form", "sig_none", "n_scalar", "indexed", "plain"):
+    # everything `replay` needs to run the same program through the same routes in the same execution mode
+    case = {k: p[k] for k in ("kind", "texts", "sig", "consts", "repl", "ufuncs", "points", "rank", "n_scalar", "sig_none",
+                              "indexed", "array_consts", "diff", "jit")}
+    case["exec_mode"] = res.get("exec_mode")
+    for k in ("grid", "what", "form", "plain", "parse_number", "exact", "no_numba"):
         if p.get(k):
             case[k] = p[k]
     uf = ufuncs_of(p)
@@ -1067,6 +1259,8 @@ def judge_program(ctx, p, res, ans_main, ansF, stats):
         ctx.hist("regression_family", p["family"])
     ctx.hist("number_type", mode)
     ctx.hist("depth", max(X.depth(e) for _c, e in flat_asts(p)))
+    if res.get("complex_typed"):
+        ctx.hist("complex_typed_results", kind, res["complex_typed"])
 
     # ---- malformed stream: expected outcome is an error class -------------------------------
     if kind == "malformed":
@@ -1134,11 +1328,18 @@ def judge_program(ctx, p, res, ans_main, ansF, stats):
         tolerated = route == "timeout"
         if tolerated:
             ctx.note(f"time limit exceeded (sympy.simplify): {p['texts']!r}")
-        if route.startswith("tensor-numba-array-fn") and msg.split(":")[0] in ("TypingError", "NameError"):
+        if route.startswith("tensor-numba") and "-array-fn" in route and msg.split(":")[0] in ("TypingError", "NameError"):
             # `_make_expression_array` (only reachable through the deprecated get_compiled_array) prints the
             # components with str(): a name that differs between sympy and numpy (E from exp(1), Abs, asin...)
             # is refused at compile time.  Refusals are counted; values it does return are compared strictly.
-            ctx.hist("refused", "tensor-numba-array-fn:" + msg.split(":")[0])
+            ctx.hist("refused", route.split(":")[0] + ":" + msg.split(":")[0])
+            continue
+        if ("numba" in route and "numba-src" not in route and msg.split(":")[0] == "TypingError"
+                and any("call1:erf" in X.kinds(e) for _c, e in asts)):
+            # py-pde's erf is scipy.special.erf, a ufunc that numba cannot type without the optional package
+            # numba-scipy (not installed): a refusal at compile time, counted; the numpy, numba-src and field routes of
+            # the same program are judged, and so is every value a compiled erf program does return
+            ctx.hist("refused", f"{route.split(':')[0]}:erf:TypingError")
             continue
         # a route may legitimately fail only where every reference is undefined
         if not tolerated and n_ok > 0:
@@ -1169,15 +1370,23 @@ def judge_program(ctx, p, res, ans_main, ansF, stats):
             continue
         _, lv, pv = st
         ctx.monitor_evals += 1
+        ctx.extra.setdefault("_pairs", set()).add((p["id"], base))
         ctx.hist("route", base)
         c = dict(case, route=route, point=ipt, comp=comp)
         tol = TOL
         if val is None or not close(val, lv, tol):
             ctx.disagree(base, c, lv, val, "py-pde value differs from the model's value")
+        if pv is None and is_d:
+            # no numerical derivative (the formula is not smooth / not real in a neighbourhood for mpmath): the monitor
+            # falls back on the model's `diff`, which `diff_sound` proves to be the derivative of the formula
+            pv = lv
+            ctx.hist("derivative_reference", "model-diff")
+        elif is_d:
+            ctx.hist("derivative_reference", "mpmath")
         if pv is not None:
-            # finite differences are a coarse, independent witness (catches a dropped factor or a
-            # wrong sign); the sharp comparison of derivatives is the one against the model
-            bad = (val is None or abs(val - pv) > 1e-4 * abs(pv) + 1e-7 * fscale(refs, ipt)) if is_d else \
+            # derivatives: the numerical derivative (mpmath, 30 digits) of the written formula is the independent
+            # reference of the monitor; the model's `diff` is the other
+            bad = (val is None or not (abs(val - pv) <= DTOL_REL * abs(pv) + DTOL_ABS * fscale(refs, ipt))) if is_d else \
                 (val is None or not close(val, pv, tol))
             if bad:
                 ctx.monitor_fail(base, c, val, pv, f"{base}: value differs from the written formula",
@@ -1196,6 +1405,9 @@ def finding_key(p, route, msg):
     key = {"kind": p["kind"], "route": base}
     if msg:
         key["error"] = msg.split(":")[0]
+    if "of type int which has no callable" in msg or ("int too big" in msg.lower()) or "Int value is too large" in msg:
+        key.update({"call_site": "make_expression_function (sympy printer)",
+                    "symptom": "integer literal beyond int64 reaches a numpy ufunc"})
     if "name 're' is not defined" in msg or "name 'im' is not defined" in msg:
         key.update({"call_site": "ExpressionBase.__init__ (sympy.simplify)",
                     "symptom": "Abs of an exponential becomes re(): NameError"})
@@ -1281,7 +1493,7 @@ def _direct_check(case, text):
 
 
 def shrink_case(case):
-    if "differentiate" in case.get("route", "") or "derivatives" in case.get("route", ""):
+    if "differentiate" in case.get("route", "") or "derivatives" in case.get("route", "") or "numba-src" in case.get("route", ""):
         return None
     declared = {n for l in case["sig"] for n in l} | set(case["consts"]) | set(case["repl"])
     ast = X.read_text(case["texts"], declared)
@@ -1297,35 +1509,108 @@ def search(ctx, broken):
     return []
 
 
-def replay(ctx, rep):
-    c = rep["case"]
-    prog = dict(c)
-    prog.update({"id": 0, "n_scalar": len(c["points"]) if c["kind"] != "field" else 0,
-                 "jit": "numba" in c.get("route", ""), "diff": [], "sig_none": False, "indexed": True,
-                 "array_consts": c.get("array_consts", {}), "ast": None, "plain": True})
-    route = c.get("route", "numpy")
-    if "differentiate" in route or "derivatives" in route:
-        declared = {n for l in c["sig"] for n in l} | set(c["consts"])
-        prog["diff"] = [l[0] for l in c["sig"]]
+def replay_worker(prog):
+    import warnings
+
+    warnings.filterwarnings("ignore")
     obs, errs = [], []
-    _run_program(prog, obs, errs)
-    print("errors:", errs)
-    ok = True
+    try:
+        _run_program(prog, obs, errs)
+    except _Timeout:
+        errs.append(("timeout", "program exceeded the time limit"))
+    return {"obs": obs, "errs": errs}
+
+
+def replay(ctx, rep):
+    """re-run the RECORDED program (text, signature, constants, user functions, the recorded split of the points into
+    scalar calls and the array call, signature=None or not) through py-pde in the recorded execution mode (numba
+    compiled or source semantics), pick the recorded observation (route, point, component) and judge it against the
+    written formula (Python's evaluation of the text; the mpmath derivative for derivative routes).  A recorded
+    failure to evaluate (`key.error`) still fails while the route raises.  False iff the recorded symptom persists
+    or cannot be re-judged."""
+    from harness.common.isolated import run_one
+
+    c = rep.get("case")
+    if not isinstance(c, dict) or "kind" not in c:
+        print("not replayable: the file records no program (kind=%s)" % rep.get("kind"))
+        return False
+    missing = [k for k in ("n_scalar", "sig_none", "array_consts", "diff") if k not in c]
+    if missing:
+        print(f"not replayable: recorded by an older version of the check (no {missing}); the split into scalar and array "
+              "calls is unknown")
+        return False
+    route = c.get("route") or (rep.get("key") or {}).get("route")
+    prog = {k: v for k, v in c.items() if k not in ("route", "point", "comp", "shrunk", "shrink_error", "exec_mode")}
+    prog.update({"id": 0, "ast": None, "jit": bool(route and "numba" in route and "numba-src" not in route) or
+                 (c.get("exec_mode") == "J" and bool(c.get("jit")))})
+    prog.setdefault("indexed", True)
+    mode = "S" if (route and "numba-src" in route) else ("J" if prog["jit"] else (c.get("exec_mode") or "S"))
+    res = run_one("harness.c11", "replay_worker", prog, env={"NUMBA_DISABLE_JIT": "1" if mode == "S" else "0"})
+    if isinstance(res, str):
+        print("worker failed:", res)
+        return False
+    obs, errs = res["obs"], dict(res["errs"])
+    print(f"execution mode {mode}; errors: {res['errs']}")
+
+    # ---- malformed stream: the expected outcome is an error class -----------------------------------------------
+    if c["kind"] == "malformed":
+        if c.get("what") == "wrong-arg-count":
+            got, want = errs.get("numpy", ""), "TypeError"
+        else:
+            got, want = errs.get("construct", ""), "RuntimeError"
+        ok = got.startswith(want)
+        print(f"malformed call ({c.get('what')}): {'rejected with ' + got if got else 'ACCEPTED'}; expected {want}: {'ok' if ok else 'FAILS'}")
+        return ok
+    if route is None:
+        print("not replayable: the file records no route")
+        return False
+    base = route.split(":")[0]
     uf = ufuncs_of(prog)
     texts = dict((tuple(cc) if cc else None, t) for cc, t in flat_texts(prog))
+    extra_ns = outside_namespace() if c["kind"] == "outside" else {}
+    # with signature=None the function takes the surviving symbols in sorted order (as in the original run)
+    sig_vars = None
+    for r, _i, _c, val in obs:
+        if r == "vars":
+            sig_vars = list(val)
+    names = sig_vars if (prog["sig_none"] and sig_vars is not None) else [l[0] for l in prog["sig"]]
+    # ---- a recorded failure to evaluate -----------------------------------------------------------------------------
+    err_routes = [r for r in errs if r.split(":")[0] == base or r == "construct" or base.startswith(r.split(":")[0] + "-")]
+    if (rep.get("key") or {}).get("error") or isinstance(rep.get("observed"), str):
+        if err_routes:
+            print(f"route {base} still fails to evaluate: {[errs[r] for r in err_routes]}")
+            return False
+        print(f"route {base} no longer raises; judging the values it returns")
+    elif err_routes:
+        print(f"route {base} now raises: {[errs[r] for r in err_routes]}")
+        return False
+    # ---- the recorded observation(s) -------------------------------------------------------------------------------------
+    ok, n = True, 0
     for r, ipt, comp, val in obs:
-        if ipt is None or r != route or ipt != c.get("point", ipt) or comp != c.get("comp", comp):
+        if ipt is None or r.split(":")[0] != base:
             continue
-        if "differentiate" in r or "derivatives" in r:
-            var = r.split(":")[1].replace("-array", "") if ":" in r else c["sig"][comp[0]][0]
-            pv = fd_derivative(prog, prog["texts"], ipt, var)
-            tol = 1e-5
+        if "point" in c and not isinstance(rep.get("observed"), str):
+            if r != route or ipt != c["point"] or comp != c.get("comp"):
+                continue
+        ck = tuple(comp) if comp else None
+        is_d = base.startswith("differentiate") or base.startswith("derivatives") or base.startswith("tensor-d")
+        if is_d:
+            if "derivatives" in base:
+                var, ck = names[comp[0]], (tuple(comp[1:]) or None)
+            else:
+                var = r.split(":")[1].replace("-array", "")
+            pv = fd_derivative(prog, texts[ck], ipt, var)
+            scale = abs(X.python_eval(texts[ck], env_of(prog, ipt), uf) or 1.0)
+            good = pv is not None and val is not None and abs(val - pv) <= DTOL_REL * abs(pv) + DTOL_ABS * max(1.0, scale)
         else:
-            pv = X.python_eval(texts[tuple(comp) if comp else None], env_of(prog, ipt), uf)
-            tol = TOL
-        good = pv is not None and val is not None and close(val, pv, tol)
+            pv = X.python_eval(texts[ck], dict(extra_ns, **env_of(prog, ipt)), uf)
+            good = pv is not None and val is not None and close(val, pv, TOL)
+        if pv is None and "point" not in c:
+            continue            # a point where the formula is undefined (only when all points of a route are judged)
+        n += 1
         print(f"route={r} point={ipt} comp={comp}: py-pde={val!r} formula={pv!r} {'ok' if good else 'DEVIATES'}")
         ok = ok and good
-    if errs and rep.get("observed") and isinstance(rep["observed"], str):
-        ok = False
+    if n == 0:
+        print(f"no observation of route {route} at the recorded point was produced: the case cannot be re-judged")
+        return False
     return ok
